@@ -58,20 +58,19 @@ def r2_counts_and_margin(ctx):
             pos, bal = loops
             b = astx.u(bal.target)
             s = astx.u(pos.target)
-            ifs = [x for x in pos.body if isinstance(x, ast.If)]
-            if len(ifs) == 1 and len(pos.body) == 1:
-                i = ifs[0]
-                N = Normalizer(f.node, inline=False)
-                t1 = bool_key(N.guard(i.test))
-                els = i.orelse
-                t2 = bool_key(N.guard(els[0].test)) if len(els) == 1 and isinstance(els[0], ast.If) else ""
-                body1 = [type(x).__name__ for x in i.body]
-                body2 = [type(x).__name__ for x in els[0].body] if t2 else []
-                it = astx.unique_def(f.node, astx.u(pos.iter)) if isinstance(pos.iter, ast.Name) else pos.iter
-                bi = astx.unique_def(f.node, astx.u(bal.iter)) if isinstance(bal.iter, ast.Name) else bal.iter
-                d = f"if {t1}: {body1} elif {t2}: {body2}; += {astx.u(a.value)}"
-                good = (t1 == f"in({c1}, {s})" and t2 == f"in({c2}, {s})" and body1 == ["AugAssign", "Break"] and body2 == ["Break"]
-                        and astx.u(a.value) == f"{b}.weight" and isinstance(a.op, ast.Add) and astx.u(it) == f"{b}.ranking" and astx.u(bi) == "self.profile.ballots")
+            N = Normalizer(f.node, inline=False)
+            la = literals(N.conj(astx.path_condition(f.node, a, pm)))
+            brks = [x for x in ast.walk(pos) if isinstance(x, ast.Break) and astx.enclosing(x, pm, (ast.For, ast.While)) is pos]
+            lbs = sorted(sorted(literals(N.conj(astx.path_condition(f.node, x, pm)))) for x in brks)
+            it = astx.unique_def(f.node, astx.u(pos.iter)) if isinstance(pos.iter, ast.Name) else pos.iter
+            bi = astx.unique_def(f.node, astx.u(bal.iter)) if isinstance(bal.iter, ast.Name) else bal.iter
+            # the scan stops at the first position holding either candidate; it counts the ballot iff that position holds a
+            blk = pm.get(a)
+            stops_after = any(isinstance(x, ast.Break) for fld in ("body", "orelse") for x in (getattr(blk, fld, []) or []) if any(y is a for y in getattr(blk, fld, []))
+                              and getattr(x, "lineno", 0) >= a.lineno)
+            d = f"+= {astx.u(a.value)} under {sorted(la)}; breaks under {lbs}"
+            good = (la == {f"in({c1}, {s})"} and lbs == sorted([sorted([f"in({c1}, {s})"]), sorted([f"in({c2}, {s})", f"not in({c1}, {s})"])]) and stops_after
+                    and astx.u(a.value) == f"{b}.weight" and isinstance(a.op, ast.Add) and it is not None and astx.u(it) == f"{b}.ranking" and bi is not None and astx.u(bi) == "self.profile.ballots")
     ctx.check(good, f, augs[0] if augs else f.node, "head2head(a,b): a ballot counts for a iff a is met before b", d,
               f"counting loop is `{d}`; documented: scan positions, add the weight and stop when a is found, stop when b is found")
     init = [dv for st, dv in astx.defs_of(f.node, astx.u(augs[0].target)) if dv is not None] if augs else []
